@@ -1,11 +1,13 @@
+#![allow(clippy::all)]
 use vcore::Ctx;
+
+include!(concat!(env!("OUT_DIR"), "/dispatch.rs"));
 
 fn main() {
     let ctx = Ctx::from_args();
-    match ctx.prop.as_str() {
-        other => {
-            eprintln!("unknown property {other}");
-            std::process::exit(2);
-        }
+    if !dispatch(&ctx) {
+        eprintln!("unknown property {}", ctx.prop);
+        std::process::exit(2);
     }
+    std::process::exit(ctx.finish());
 }
